@@ -194,7 +194,14 @@ func (s *State) loadHeap(comp string, ref *Term, typ types.Type) Value {
 		return sv
 	case *types.Slice:
 		es := sortOfType(elemReifyType(u.Elem()))
-		arr := Select(s.heapComp(comp+"@arr", SArr(SInt, SArr(SInt, es))), ref)
+		_, had := s.Heap[shortKey(comp+"@arr")]
+		hc := s.heapComp(comp+"@arr", SArr(SInt, SArr(SInt, es)))
+		if _, isPtr := u.Elem().Underlying().(*types.Pointer); isPtr && !had && strings.HasPrefix(hc.Op, "H0.") {
+			// the entry heap holds no pointer to an object this function allocates later
+			r, i := Atom("q_r", SInt), Atom("q_i", SInt)
+			s.Assume(Forall([]*Term{r, i}, Lt(Select(Select(hc, r), i), IntLit(objBase))))
+		}
+		arr := Select(hc, ref)
 		ln := Select(s.heapComp(comp+"@len", SArr(SInt, SInt)), ref)
 		return &SliceVal{Arr: arr, Len: ln, Cap: ln, Elem: u.Elem()}
 	case *types.Array:
